@@ -18,7 +18,7 @@ BORDER = ["line_ht_char", "line_hc_char", "line_hb_char", "line_vl_char", "line_
           "corner_tl_char", "corner_tr_char", "corner_bl_char", "corner_br_char",
           "crossing_c_char", "crossing_l_char", "crossing_t_char", "crossing_r_char", "crossing_b_char", "style"]
 ALIGN_OPS = ["set_column_alignment", "column_alignments", "default_column_alignment"]
-ANSI_IO = {"utf8": True, "ansi": True, "verb": "normal"}
+ANSI_IO = {"utf8": True, "ansi": True, "verb": "normal", "width": 40}
 
 
 TAGGED = {"bold": lambda st: st.bold(), "red": lambda st: st.fg("red"), "blue": lambda st: st.bg("blue"),
@@ -48,7 +48,7 @@ def style_name(st):
     return "bold" if st.is_bold() else "#"
 
 
-NOIO = {"utf8": True, "ansi": False, "verb": "normal"}
+NOIO = {"utf8": True, "ansi": False, "verb": "normal", "width": 60}
 KINDS = ["borderless", "compact", "ascii", "solid"]
 COMPONENTS = ["table", "para", "parared", "labeled", "namever", "empty", "apphelp", "cmdhelp", "trace", "trace2"]
 LOREM = ("<b>Lorem</b> ipsum dolor sit amet, consetetur sadipscing elitr, sed diam nonumy eirmod tempor invidunt ut "
@@ -96,6 +96,7 @@ class Driver(object):
         self.styles = []
         self.own = []  # per style: its own operations (with s = 1), the key of its fresh-process reference
         self.instances = {}
+        self.ios = {}
         self.texts = {}
         self._app = None
 
@@ -103,7 +104,7 @@ class Driver(object):
         return self.texts.setdefault(text, len(self.texts) + 1)
 
     # ------------------------------------------------------------ I/O
-    def io(self, spec, width=60, redefined=False):
+    def io(self, spec, width=None, redefined=False):
         """redefined: the formatter's style set gives the stock tag c1 other attributes (as an application does with
         config.add_style(Style("c1")...))"""
         from clikit.api.formatter import Style
@@ -112,6 +113,15 @@ class Driver(object):
         from clikit.io import BufferedIO
         from clikit.ui.rectangle import Rectangle
 
+        width = width or spec.get("width", 60)
+        key = (bool(spec["utf8"]), bool(spec["ansi"]), redefined)
+        if key in self.ios:  # one I/O (and formatter) per capability is re-used by all renders of a behaviour
+            io = self.ios[key]
+            io.clear_output()
+            io.clear_error()
+            io.set_terminal_dimensions(Rectangle(width, 50))
+            io.set_verbosity({"normal": flags.NORMAL, "verbose": flags.VERBOSE, "debug": flags.DEBUG}[spec["verb"]])
+            return io
         style_set = None
         if redefined:
             style_set = DefaultStyleSet()
@@ -120,6 +130,7 @@ class Driver(object):
         io = BufferedIO(formatter=fmt, supports_utf8=bool(spec["utf8"]))
         io.set_terminal_dimensions(Rectangle(width, 50))
         io.set_verbosity({"normal": flags.NORMAL, "verbose": flags.VERBOSE, "debug": flags.DEBUG}[spec["verb"]])
+        self.ios[key] = io
         return io
 
     # ------------------------------------------------------------ styles
@@ -208,37 +219,43 @@ class Driver(object):
 
         ev = {"op": op["op"], "kind": op.get("kind", ""), "s": op.get("s", 0), "field": op.get("field", ""),
               "value": op.get("value", ""), "comp": op.get("comp", ""), "inst": op.get("inst", 0), "io": op.get("io", NOIO),
-              "col": op.get("col", 0), "a": op.get("a", 0), "seq": op.get("seq", []), "ids": [], "fields": [], "refs": [], "id": 0, "ref": 0}
+              "col": op.get("col", 0), "a": op.get("a", 0), "seq": op.get("seq", []), "ids": [], "fields": [], "refs": [], "id": 0, "ref": 0, "exc": ""}
         k = op["op"]
-        if k == "make":
-            self.styles.append(getattr(TableStyle, op["kind"])())
-            self.own.append([dict(op)])
-            ev["s"] = len(self.styles)
-        elif k == "custom":
-            st = self.styles[op["s"] - 1]
-            v = style_value(op["value"]) if op["field"] in STYLED else op["value"]
-            setattr(st if op["field"] in OWN else st.border_style, op["field"], v)
-        elif k == "align":
-            st = self.styles[op["s"] - 1]
-            if op["field"] == "set_column_alignment":
-                st.set_column_alignment(op["col"], op["a"])
-            elif op["field"] == "column_alignments":
-                st.column_alignments = list(op["seq"])
-            else:
-                st.default_column_alignment = op["a"]
-        elif k == "render":
+        try:  # factories and setters may raise on a changed library: an observation, not a crash of the driver
+            if k == "make":
+                ev["s"] = len(self.styles) + 1
+                self.styles.append(getattr(TableStyle, op["kind"])())
+                self.own.append([dict(op)])
+            elif k == "custom":
+                st = self.styles[op["s"] - 1]
+                v = style_value(op["value"]) if op["field"] in STYLED else op["value"]
+                setattr(st if op["field"] in OWN else st.border_style, op["field"], v)
+            elif k == "align":
+                st = self.styles[op["s"] - 1]
+                if op["field"] == "set_column_alignment":
+                    st.set_column_alignment(op["col"], op["a"])
+                elif op["field"] == "column_alignments":
+                    st.column_alignments = list(op["seq"])
+                else:
+                    st.default_column_alignment = op["a"]
+        except Exception as e:  # noqa
+            ev["exc"] = type(e).__name__
+        if k == "render":
             io = self.io(op["io"], redefined=(op["comp"] == "parared"))
             try:
-                self.component(op["comp"], op["inst"]).render(io)
+                if op["inst"] == 2:  # the other route: indentation given explicitly
+                    self.component(op["comp"], op["inst"]).render(io, 0)
+                else:
+                    self.component(op["comp"], op["inst"]).render(io)
                 text = io.fetch_output() + "\x00" + io.fetch_error()
             except Exception as e:  # noqa: an exception kind is an observation
                 text = "EXC " + type(e).__name__
             ev["id"] = self.intern("R" + text)
             # what a fresh process shows for this component on this I/O (absent: no reference, compared with itself)
             ev["ref"] = self.intern("R" + self.refs.get(ref_key(op["comp"], op["io"]), text))
-        if k in ("custom", "align"):
+        if k in ("custom", "align") and not ev["exc"]:
             self.own[op["s"] - 1].append(dict(op, s=1))
-        if k in ("make", "custom", "align"):
+        if k in ("make", "custom", "align") and not ev["exc"]:
             ev["ids"] = [self.intern("T" + self.table_text(st)) for st in self.styles]
             ev["fields"] = [self.fields(st) for st in self.styles]
             # what a fresh process shows for a style with this own history alone (0: no reference taken)
@@ -252,7 +269,7 @@ def run_ops(ops, refs=None):
 
 
 def ref_key(comp, io):
-    return "%s/%d%d%s" % (comp, bool(io["utf8"]), bool(io["ansi"]), io["verb"])
+    return "%s/%d%d%s%d" % (comp, bool(io["utf8"]), bool(io["ansi"]), io["verb"], io.get("width", 60))
 
 
 def style_key(history):
@@ -326,7 +343,8 @@ def _ref_server():
     sys.stdout.write(json.dumps(out))
 
 
-ALL_IOS = [{"utf8": u, "ansi": a, "verb": v} for u in (True, False) for a in (True, False) for v in ("normal", "verbose", "debug")]
+ALL_IOS = [{"utf8": u, "ansi": a, "verb": v, "width": w} for u in (True, False) for a in (True, False)
+           for v in ("normal", "verbose", "debug") for w in (60, 40)]
 
 
 def random_ops(rng, n):
@@ -418,8 +436,8 @@ def run_styles(ctx):
     recs = T.emitted(r)
     if len(recs) < 1000:
         raise T.MachineryError("MC_Styles renders family emitted only %d behaviours" % len(recs))
-    if quick:  # every sixth pair, chosen by the seed: the full set is replayed in the thorough tier
-        recs = recs[ctx.seed % 6 :: 6]
+    if quick:  # every eighth pair, chosen by the seed: the full set is replayed in the thorough tier
+        recs = recs[ctx.seed % 8 :: 8]
     for b in recs:
         add(_render_ops(b), "tlc-renders")
     if not quick:
